@@ -18,6 +18,7 @@ def run(repo, res, tier):
     for s in parserules.event_sites(an, "next") + parserules.event_sites(an, "for_tokens"):
         res.oblige("T7", s + " is not reached after END", ok=s not in bad)
     lexrules.rule_lazy(repo, res)
+    lexrules.rule_lookahead(repo, res)
     apirules.rule_f1(repo, res, "__init__")
     if "new" in repo.modules:
         apirules.rule_f1(repo, res, "new")
